@@ -23,7 +23,7 @@ const (
 	EncOmitemptyArray0   = "FX-ENC-omitempty-zero-length-array" // fixed: the selector can never be active again
 	EncOmitemptyPtrPtr   = "KF-ENC-omitempty-pointer-to-nil-pointer"
 	EncEmbeddedConflict  = "KF-ENC-embedded-name-conflict"
-	EncNilPtrFirstMarsh  = "KF-ENC-nil-pointer-to-struct-starting-with-pointer-receiver-marshaler"
+	EncNilPtrFirstMarsh  = "FX-ENC-nil-pointer-to-struct-starting-with-pointer-receiver-marshaler"
 )
 
 func isLeaf(s *gen.TypeSpec, names ...string) bool {
